@@ -5,6 +5,9 @@ from batch_common import BatchSpec
 PROP_FILES = ["C11"]
 
 
+SPECS = {"batch": (BatchSpec(), "harness_batch", "runner-batch")}
+
+
 def run(ctx):
     proofs_ok = ctx.check_proofs(PROP_FILES, extra_targets=["theories/Conc/Batch.vo"])
     ok, out, exe = vlib.build_runner(module="harness_batch", exe_name="runner-batch")
